@@ -36,7 +36,9 @@ Record step := { s_env : env; s_caller : nat; s_op : op V; s_obs : obs }.
 
 Inductive case :=
 | Case (callers : list caller) (steps : list step)
-| Golden (expected observed : disk_dump).   (* a file written by the pinned release, reopened by the current tree *)
+| Golden (expected observed : disk_dump)    (* a file written by the pinned release, reopened by the current tree *)
+| Conc (callers : list caller) (calls : list (nat * op V)) (log : list entry).
+    (* concurrent callers on a real audit file: the parsed lines of the file afterwards *)
 
 Definition nobody : caller := {| principal := 0; rules := [] |}.
 Definition get_caller (cs : list caller) (i : nat) : caller := nth i cs nobody.
@@ -132,7 +134,7 @@ Definition judge_C02 (s s' : dbstate V) (r : result V) (fx : list effect) (st : 
   result_beq r (o_res (s_obs st)) && live_ok (kv s') (s_obs st).
 
 Definition check_C02 (c : case) : bool :=
-  match c with Case cs steps => run_pure judge_C02 cs start steps | Golden _ _ => true end.
+  match c with Case cs steps => run_pure judge_C02 cs start steps | _ => true end.
 
 (* ---------- C03: the reopened file equals the acknowledged state, counters included ---------- *)
 Definition judge_C03 (s s' : dbstate V) (r : result V) (fx : list effect) (st : step) : bool :=
@@ -142,6 +144,7 @@ Definition check_C03 (c : case) : bool :=
   match c with
   | Case cs steps => run_pure judge_C03 cs start steps
   | Golden expected observed => disk_beq expected observed
+  | Conc _ _ _ => true
   end.
 
 (* ---------- C04 (rollback part): after a failed save the state served, the file, the
@@ -151,7 +154,7 @@ Definition judge_C04 (s s' : dbstate V) (r : result V) (fx : list effect) (st : 
   && disk_beq (disk_of (kv s')) (o_disk (s_obs st)) && (gen s' =? o_gen (s_obs st)).
 
 Definition check_C04 (c : case) : bool :=
-  match c with Case cs steps => run_pure judge_C04 cs start steps | Golden _ _ => true end.
+  match c with Case cs steps => run_pure judge_C04 cs start steps | _ => true end.
 
 (* ---------- C01: the access decision and its consequences, step by step ---------- *)
 Definition is_denied (r : result V) : bool := match r with RDenied => true | _ => false end.
@@ -186,7 +189,7 @@ Definition judge_C01 (cs : list caller)
      end.
 
 Definition check_C01 (c : case) : bool :=
-  match c with Case cs steps => run_resync (judge_C01 cs) cs start (Some []) steps | Golden _ _ => true end.
+  match c with Case cs steps => run_resync (judge_C01 cs) cs start (Some []) steps | _ => true end.
 
 (* ---------- C06: audit records and their order relative to effects and results ---------- *)
 Definition judge_C06 (s s' : dbstate V) (r : result V) (fx : list effect) (prev : option live_dump) (st : step) : bool :=
@@ -198,8 +201,34 @@ Definition judge_C06 (s s' : dbstate V) (r : result V) (fx : list effect) (prev 
            && match prev, observed_live o with Some a, Some b => live_beq a b | _, _ => true end
       else Bool.eqb (carries_data r) (carries_data (o_res o))).
 
+(* multiset equality of record lists *)
+Fixpoint remove_first (e : entry) (l : list entry) : option (list entry) :=
+  match l with
+  | [] => None
+  | x :: r => if entry_beq e x then Some r
+              else match remove_first e r with Some r' => Some (x :: r') | None => None end
+  end.
+Fixpoint perm_beq (a b : list entry) : bool :=
+  match a with
+  | [] => match b with [] => true | _ => false end
+  | x :: a' => match remove_first x b with Some b' => perm_beq a' b' | None => false end
+  end.
+
+(* the one record each (audited) call must have produced *)
+Definition expected_entry (cs : list caller) (call : nat * op V) : entry :=
+  let c := get_caller cs (fst call) in
+  let o := snd call in
+  let a := match need o with Some a => a | None => AInfo end in
+  {| e_principal := principal c; e_action := a; e_secret := target o;
+     e_version := match o with OGetVer _ v | OActivate _ v | ODelVer _ v => v | _ => 0 end;
+     e_authorized := match o with OList => true | _ => allow (rules c) a (target o) end |}.
+
 Definition check_C06 (c : case) : bool :=
-  match c with Case cs steps => run_resync judge_C06 cs start (Some []) steps | Golden _ _ => true end.
+  match c with
+  | Case cs steps => run_resync judge_C06 cs start (Some []) steps
+  | Conc cs calls log => perm_beq (map (expected_entry cs) calls) log
+  | Golden _ _ => true
+  end.
 
 (* ---------- C09: conditional get ---------- *)
 Definition judge_C09 (s s' : dbstate V) (r : result V) (fx : list effect) (prev : option live_dump) (st : step) : bool :=
@@ -209,7 +238,7 @@ Definition judge_C09 (s s' : dbstate V) (r : result V) (fx : list effect) (prev 
   end.
 
 Definition check_C09 (c : case) : bool :=
-  match c with Case cs steps => run_resync judge_C09 cs start (Some []) steps | Golden _ _ => true end.
+  match c with Case cs steps => run_resync judge_C09 cs start (Some []) steps | _ => true end.
 
 (* ---------- compact constructors used by the generated case files ---------- *)
 Definition St (ok : bool) (au : afault) (c : nat) (o : op V) (r : result V) (fx : list effect)
